@@ -79,6 +79,8 @@ func verifyBundle(r io.ReaderAt, files zipFiles, sig *AppxSignature, skipDigests
 		pkgIndex, ok := packages[dosname]
 		if !ok {
 			return fmt.Errorf("bundle manifest: missing file %s", zf.Name)
+		} else if pkgIndex < 0 {
+			return fmt.Errorf("bundle manifest: more than one file for %s", dosname)
 		}
 		packages[dosname] = -1 // mark as seen
 		pkg := bundle.Packages[pkgIndex]
